@@ -490,6 +490,10 @@ func glueCorpus(r *Rng, st *Stats) {
 		{"a{color:red!important} a.c1{color:blue} a{color:red}", min, ""},
 		{"@layer la{b{color:red}} @layer lb{b{color:blue}} @layer la{b{color:red}}", min, ""},
 		{"a{color:red} a::-moz-x{color:red} .c1{color:blue} a{order:1}", min, ""},
+		{"a{margin:0 2px;margin-top:1px} b{padding:1px 2px 3px 4px;padding-left:5px;top:1px;inset:2px 3px;left:0}", min, ""},
+		{"a{margin:1px;margin-left:2px!important} a.c1{margin-left:5px;padding-top:9px} a{padding:1px!important;padding-top:2px}", min, ""},
+		{"a{color:red} b:focus-visible{color:red} a{order:1} b::-moz-x{order:1} div{order:2} x-el{order:2}", min, ""},
+		{"a{margin-top:1px!important;margin:2px;margin-left:3px!important} b{border-radius:1px 2px;border-top-left-radius:3px}", min, ""},
 		{"a{margin:1px;margin-top:1vw;margin-top:0} b{border-radius:1px;border-top-left-radius:1vw;border-top-left-radius:0}", min, "box-shorthand-placed-before-kept-declaration"},
 	}
 	for _, c := range cases {
